@@ -155,6 +155,22 @@ func (p *Prog) MustAppear(i int, v Val) bool {
 	return true
 }
 
+// ReturningIntoNoScanDest: the program combines an explicit RETURNING call
+// with a finisher whose destination cannot receive returned rows; the real
+// run of such a program panics inside gorm's Scan (unchanged tree). Input-side
+// predicate used to classify that panic.
+func (p *Prog) ReturningIntoNoScanDest() bool {
+	if !p.Fin.NoScanDest {
+		return false
+	}
+	for _, o := range p.Ops {
+		if o.Clause == "RETURNING" {
+			return true
+		}
+	}
+	return false
+}
+
 // MayAppear reports whether the finisher can render slot i's call at all; a
 // column of a call that is not rendered is an ordinary column.
 func (p *Prog) MayAppear(i int) bool {
@@ -261,11 +277,12 @@ func OpsFor(core, exec bool) []*Op {
 	return out
 }
 
-// FinsFor returns all finishers or (rep=true) one representative per code path.
-func FinsFor(rep bool) []*Fin {
+// FinsFor returns the finishers: rep=true one representative per code path
+// only; multi=false leaves out the finishers without a single main statement.
+func FinsFor(rep, multi bool) []*Fin {
 	var out []*Fin
 	for _, f := range Fins {
-		if rep && !f.Rep {
+		if (rep && !f.Rep) || (!multi && f.Multi) {
 			continue
 		}
 		out = append(out, f)
